@@ -112,6 +112,9 @@ Chain2 ==
         e2 == [Chain[2] EXCEPT !.rules = ("M" :> Rule(Seq2(Ref("W"), Opt(Ref("X"))))) @@ @]
     IN <<Cap(b2), e2>>
 
+(* ... and the UNCHANGED description of level 2 compiled once more, now on top of the re-created base *)
+Chain3 == <<Chain2[1], Chain[2]>>
+
 Alpha == IF ig = "none" THEN <<a, b, c3>> ELSE IF ig \in {"both", "bothanon"} THEN <<a, b, c3, sp, dash>> ELSE <<a, b, c3, sp>>
 Texts == TextSeqUpTo(Alpha, IF Tier = "quick" \/ ig # "none" THEN 3 ELSE 4)     \* (length 4 over 5 letters made the thorough instance run for an hour)
          \o << <<a, b, b, 33>>, <<a, c3, b, b>>, <<b, b, a, c3>>, <<a, c3, b, 33>>, <<a, a, b, a>>, <<c3, c3, a>>,
@@ -135,7 +138,8 @@ Step == /\ ~done
         /\ UNCHANGED <<ig, d2, d3, cap>>
         /\ PrintT(ToJson([chain |-> Chain, chain2 |-> Chain2, ig |-> ig,
                           runs |-> [top \in 1..Len(Chain) |-> RunsFor(Chain, top)],
-                          runs2 |-> [top \in 1..2 |-> RunsFor(Chain2, top)]]))
+                          runs2 |-> [top \in 1..2 |-> RunsFor(Chain2, top)],
+                          runs3 |-> RunsFor(Chain3, 2)]))
 
 Next == Step
 
